@@ -236,6 +236,42 @@ type lateAnswer struct {
 	msg   Value
 	conn  *diamConn
 	connT types.Type
+	armed bool // a timer has fired since the answer was delayed: it may arrive at the next one
+}
+
+// lateArrivals is called when a timer fires (time passes): an answer that was
+// delayed beyond its request's timer has not arrived when that timer fires
+// (it is then "armed"); while the code waits on any LATER timer it may arrive,
+// if the connection it travels on is still open - go-diameter's reader hands
+// it to the registered handler, which blocks in its channel send when no
+// request is waiting (holding the mux read lock).
+func (m *Machine) lateArrivals() {
+	la, _ := m.env["lateAnswers"].([]*lateAnswer)
+	if len(la) == 0 {
+		return
+	}
+	var keep []*lateAnswer
+	for _, a := range la {
+		if !a.armed {
+			a.armed = true
+			keep = append(keep, a)
+			continue
+		}
+		if a.conn != nil && a.conn.closed {
+			keep = append(keep, a) // discarded at delivery time
+			continue
+		}
+		h, ok := m.env["diamhandler:"+a.name]
+		if !ok || m.Choose(2) == 0 {
+			keep = append(keep, a)
+			continue
+		}
+		cliConn := Iface{T: a.connT, V: &Opaque{Kind: "diam.Conn", Data: &diamConn{id: -4}}}
+		m.call(h.(Iface).V, nil, []Value{cliConn, a.msg})
+		m.env["muxReaderBlocked:"+a.name] = "the handler of a late " + a.name + " is blocked in its channel send (no request is waiting) while holding the mux read lock"
+		m.events = append(m.events, "late "+a.name+" arrived while the code was waiting on a timer: handler blocked in channel send")
+	}
+	m.env["lateAnswers"] = keep
 }
 
 type dbRow struct {
@@ -375,6 +411,12 @@ func init() {
 		return nil
 	}
 	I["(*"+smPkg+".StateMachine).HandleFunc"] = func(m *Machine, fr *frame, args []Value) Value { return nil }
+	I["(*"+smPkg+".StateMachine).Settings"] = func(m *Machine, fr *frame, args []Value) Value {
+		t := m.P.Package(smPkg).Pkg.Scope().Lookup("Settings").Type()
+		p := new(Value)
+		*p = m.zero(t)
+		return p
+	}
 	I["(*"+smPkg+".StateMachine).ErrorReports"] = func(m *Machine, fr *frame, args []Value) Value { return &Chan{Name: "errorReports"} }
 	dial := func(m *Machine, fr *frame, args []Value) Value {
 		m.noteAssumption("stub sm.Client.Dial*: returns a ghost connection (or, where the harness allows it, an error); go-diameter's handshake, reader and watchdog tasks are not encoded")
